@@ -73,7 +73,7 @@ STRUCT = [0x2F, 0x21, 0x0A, 0x0D, 0x7E, 0x7D]
 
 
 def noise(rng, max_len: int = 400) -> tuple[bytes, str]:
-    kind = rng.choice(["random", "structural", "ident_like", "ident_without_end", "start_char_without_lf", "truncated_readout", "nonascii_ident", "bad_end_line", "bang_in_ident", "long_ident_like", "ident_then_end_only", "long", "empty"])
+    kind = rng.choice(["random", "structural", "ident_like", "ident_without_end", "start_char_without_lf", "truncated_readout", "nonascii_ident", "bad_end_line", "bang_in_ident", "long_ident_like", "ident_then_end_only", "near_limit_readout", "long", "empty"])
     if kind == "empty":
         return b"", kind
     if kind == "random":
@@ -83,6 +83,19 @@ def noise(rng, max_len: int = 400) -> tuple[bytes, str]:
         return bytes(rng.choice(STRUCT) if rng.random() < 0.35 else (rng.randrange(0x80, 0x100) if rng.random() < 0.2 else rng.randrange(0x20, 0x7F)) for _ in range(n)), kind
     if kind == "ident_like":
         return ("/" + "".join(rng.choice(LETTERS + string.digits + " \\") for _ in range(rng.randint(0, 12)))).encode() + rng.choice([b"\r\n", b"\n", b""]), kind
+    if kind == "near_limit_readout":
+        # a readout whose collected size is within a few octets of the reader's 8191-octet limit when its end line arrives
+        head = b"/ABC5xyz\r\n"
+        end = rng.choice([b"!\r\n", b"!1A2B\r\n", b"!\n"])
+        target = 8191 + rng.randint(-9, 9) - (len(end) if rng.random() < 0.7 else 0)
+        body = bytearray(head)
+        line = b"1-0:1.8.0(000123.456*kWh)\r\n"
+        while len(body) + len(line) <= target:
+            body += line
+        pad = target - len(body)
+        if pad >= 2:
+            body += b"x" * (pad - 2) + b"\r\n"
+        return bytes(body) + end, kind
     if kind == "ident_then_end_only":
         return ident(rng).encode("latin-1") + rng.choice([b"\r\n", b"\n"]) + rng.choice([b"!\r\n", b"!7A1C\r\n", b"!\n"]) * rng.randint(1, 2), kind
     if kind == "long_ident_like":
